@@ -112,3 +112,129 @@ def kwreverse_overlay(root: str) -> tuple:
                 _KwReverse().visit(tree)
                 overlay[os.path.relpath(path, root)] = ast.unparse(tree) + "\n"
     return overlay, _KwReverse.n
+
+
+class _Hoist(ast.NodeTransformer):
+    """`x = f(g(a), k=h(b))` -> `_t1 = g(a); _t2 = h(b); x = f(_t1, k=_t2)` for simple
+    statements whose value is one call: evaluation order is unchanged (arguments are
+    evaluated left to right, positionals before keywords)."""
+    n = 0
+
+    def _hoist_stmt(self, st):
+        val = getattr(st, "value", None)
+        if not isinstance(st, (ast.Assign, ast.Expr, ast.Return)) or not isinstance(val, ast.Call):
+            return [st]
+        if isinstance(val.func, ast.Call) or any(isinstance(a, ast.Starred) for a in val.args) or any(k.arg is None for k in val.keywords):
+            return [st]
+        if isinstance(val.func, ast.Attribute) and isinstance(val.func.value, ast.Call):
+            return [st]  # super().m(...) and chained calls: the receiver is itself a call
+        simple = (ast.Name, ast.Constant, ast.Attribute)
+        slots = list(val.args) + [k.value for k in val.keywords]
+        if all(isinstance(a, simple) for a in slots):
+            return [st]
+        if any(isinstance(x, (ast.Lambda, ast.GeneratorExp, ast.ListComp, ast.DictComp, ast.SetComp, ast.NamedExpr, ast.Yield, ast.Await, ast.IfExp, ast.BoolOp))
+               for a in slots for x in ast.walk(a)):
+            return [st]
+        pre = []
+        # once one argument is hoisted every later non-constant argument must follow (order of evaluation)
+        started = False
+        new_args, new_kws = [], []
+        for a in val.args:
+            if isinstance(a, ast.Constant) or (not started and isinstance(a, (ast.Name, ast.Attribute))):
+                new_args.append(a)
+                continue
+            started = True
+            _Hoist.n += 1
+            nm = f"_h{_Hoist.n}"
+            pre.append(ast.Assign(targets=[ast.Name(id=nm, ctx=ast.Store())], value=a))
+            new_args.append(ast.Name(id=nm, ctx=ast.Load()))
+        for k in val.keywords:
+            a = k.value
+            if isinstance(a, ast.Constant) or (not started and isinstance(a, (ast.Name, ast.Attribute))):
+                new_kws.append(k)
+                continue
+            started = True
+            _Hoist.n += 1
+            nm = f"_h{_Hoist.n}"
+            pre.append(ast.Assign(targets=[ast.Name(id=nm, ctx=ast.Store())], value=a))
+            new_kws.append(ast.keyword(arg=k.arg, value=ast.Name(id=nm, ctx=ast.Load())))
+        val.args, val.keywords = new_args, new_kws
+        out = pre + [st]
+        for o in out:
+            ast.copy_location(o, st)
+            ast.fix_missing_locations(o)
+        return out
+
+    def _block(self, stmts):
+        out = []
+        for st in stmts:
+            self.generic_visit(st) if not isinstance(st, (ast.Assign, ast.Expr, ast.Return)) else None
+            out.extend(self._hoist_stmt(st))
+        return out
+
+    def generic_visit(self, node):
+        for field in ("body", "orelse", "finalbody"):
+            blk = getattr(node, field, None)
+            if isinstance(blk, list) and blk and isinstance(blk[0], ast.stmt):
+                setattr(node, field, self._block(blk))
+        for h in getattr(node, "handlers", []) or []:
+            h.body = self._block(h.body)
+        return node
+
+
+def hoist_overlay(root: str) -> tuple:
+    overlay = {}
+    _Hoist.n = 0
+    src_root = os.path.join(root, "src", "aspire")
+    for dirpath, _dirs, files in os.walk(src_root):
+        for fn in sorted(files):
+            if fn.endswith(".py"):
+                path = os.path.join(dirpath, fn)
+                with open(path, encoding="utf-8") as fh:
+                    tree = ast.parse(fh.read())
+                h = _Hoist()
+                for n in tree.body:
+                    if isinstance(n, (ast.FunctionDef, ast.AsyncFunctionDef)):
+                        h.generic_visit(n)
+                    elif isinstance(n, ast.ClassDef):
+                        for m in n.body:
+                            if isinstance(m, (ast.FunctionDef, ast.AsyncFunctionDef)):
+                                h.generic_visit(m)
+                overlay[os.path.relpath(path, root)] = ast.unparse(tree) + "\n"
+    return overlay, _Hoist.n
+
+
+class _Swap(ast.NodeTransformer):
+    """`if c: A else: B` -> `if not c: B else: A` (statements and conditional expressions)."""
+    n = 0
+
+    def visit_If(self, node):
+        self.generic_visit(node)
+        if node.orelse:
+            node.test = ast.UnaryOp(op=ast.Not(), operand=node.test)
+            node.body, node.orelse = node.orelse, node.body
+            _Swap.n += 1
+        return node
+
+    def visit_IfExp(self, node):
+        self.generic_visit(node)
+        node.test = ast.UnaryOp(op=ast.Not(), operand=node.test)
+        node.body, node.orelse = node.orelse, node.body
+        _Swap.n += 1
+        return node
+
+
+def swap_overlay(root: str) -> tuple:
+    overlay = {}
+    _Swap.n = 0
+    src_root = os.path.join(root, "src", "aspire")
+    for dirpath, _dirs, files in os.walk(src_root):
+        for fn in sorted(files):
+            if fn.endswith(".py"):
+                path = os.path.join(dirpath, fn)
+                with open(path, encoding="utf-8") as fh:
+                    tree = ast.parse(fh.read())
+                _Swap().visit(tree)
+                ast.fix_missing_locations(tree)
+                overlay[os.path.relpath(path, root)] = ast.unparse(tree) + "\n"
+    return overlay, _Swap.n
